@@ -602,7 +602,8 @@ def inline_new_locals(prog):
                     if not adjacent_temp and any(_mutates(s_, paths, None, alias=is_alias) for s_ in after[:last + 1]):
                         continue
                     # a big expression used many times is left alone (keeps the trees readable); aliases and single uses always go
-                    if not simple and uses_total > 3:
+                    is_partial = isinstance(st.value, ast.Call) and ast.unparse(st.value.func).split(".")[-1] == "partial"     # a curried callee is an alias of sorts
+                    if not simple and uses_total > 3 and not is_partial:
                         continue
                     sub = _Subst(name, st.value)
                     for j in range(i + 1, len(lst)):
@@ -1869,6 +1870,210 @@ def dissolve_namedtuples(prog):
                     a._fields = ("value", "slice", "ctx")
                     del a.attr
                     count += 1
+        if count:
+            ast.fix_missing_locations(m.tree)
+    return count
+
+
+def inline_new_generators(prog, known):
+    """P47: a *new* generator function (method of the class or module-level function, not in the frozen list) dissolves at its uses:
+      for T in G(a, ..): B          ->  G's body with its single `yield E` replaced by `T = E; B`   (yield is the last statement of G's loop)
+      x = list(G(a, ..))            ->  x = []; G's body with every `yield E` -> x.append(E), a bare `return` inside G's only loop -> break
+      g = G(a, ..); .. next(g) ..   ->  g = list(G(..)) as above, g_pos = 0, and each statement using next(g) once reads g[g_pos] and
+                                        is followed by g_pos += 1   (g used in no other way)
+    Arguments must be plain names / attribute paths / constants / subscripts of those (evaluated once in the original, possibly
+    several times after substitution)."""
+    if known is None:
+        return 0
+    count = 0
+
+    def simple(a):
+        return all(isinstance(x, (ast.Name, ast.Attribute, ast.Constant, ast.Subscript, ast.expr_context, ast.Slice)) for x in ast.walk(a)) or _is_pure(a)
+
+    for m in prog.modules.values():
+        pool = {}
+        for st in m.tree.body:
+            if isinstance(st, ast.FunctionDef) and st.name not in known and any(isinstance(x, ast.Yield) for x in ast.walk(st)) and not any(isinstance(x, ast.YieldFrom) for x in ast.walk(st)):
+                pool[(None, st.name)] = st
+            if isinstance(st, ast.ClassDef):
+                for d in st.body:
+                    if isinstance(d, ast.FunctionDef) and "%s.%s" % (st.name, d.name) not in known and any(isinstance(x, ast.Yield) for x in ast.walk(d)) \
+                            and not any(isinstance(x, ast.YieldFrom) for x in ast.walk(d)):
+                        pool[(st.name, d.name)] = d
+        if not pool:
+            continue
+
+        def resolve(call, cls):
+            f = call.func
+            if isinstance(f, ast.Name) and (None, f.id) in pool:
+                return pool[(None, f.id)], 0
+            if isinstance(f, ast.Attribute) and isinstance(f.value, ast.Name) and cls is not None:
+                for k in [c.name for c in prog.mro(cls)] if cls in prog.classes else [cls]:
+                    if (k, f.attr) in pool and f.value.id in ("self", k):
+                        g = pool[(k, f.attr)]
+                        static = any(isinstance(d, ast.Name) and d.id == "staticmethod" for d in g.decorator_list)
+                        return g, (0 if static else 1)
+            return None
+
+        def instantiate(g, skip, call, me):
+            params = [a.arg for a in g.args.args][skip:]
+            if call.keywords or len(call.args) != len(params) or g.args.vararg or g.args.kwarg or not all(simple(a) for a in call.args):
+                return None
+            sub = dict(zip(params, call.args))
+            if skip:
+                sub[g.args.args[0].arg] = ast.Name(id=me, ctx=ast.Load())
+            if any(isinstance(x, ast.Name) and x.id in sub and isinstance(x.ctx, ast.Store) for x in ast.walk(g)):
+                return None
+
+            class S(ast.NodeTransformer):
+                def visit_Name(self, x):
+                    if x.id in sub and isinstance(x.ctx, ast.Load):
+                        return ast.copy_location(copy.deepcopy(sub[x.id]), x)
+                    return x
+            body = [S().visit(copy.deepcopy(b)) for b in g.body]
+            if body and isinstance(body[0], ast.Expr) and isinstance(body[0].value, ast.Constant) and isinstance(body[0].value.value, str):
+                body = body[1:]
+            return body
+
+        def replace_yields(body, make):
+            """statement lists with `yield E` expression statements replaced by make(E); None if a yield is used as a value"""
+            ok = [True]
+
+            def rec(lst):
+                out = []
+                for st in lst:
+                    if isinstance(st, ast.Expr) and isinstance(st.value, ast.Yield):
+                        out.extend(make(st.value.value))
+                        continue
+                    if any(isinstance(x, ast.Yield) for x in ast.walk(st)) and not any(hasattr(st, f) for f in ("body",)):
+                        ok[0] = False
+                    for fld in ("body", "orelse", "finalbody"):
+                        if hasattr(st, fld) and isinstance(getattr(st, fld), list) and not isinstance(st, (ast.FunctionDef, ast.ClassDef)):
+                            setattr(st, fld, rec(getattr(st, fld)))
+                    out.append(st)
+                return out
+            res = rec(body)
+            return res if ok[0] else None
+
+        def bare_returns_to_break(body):
+            """a bare return directly inside the only top-level loop, nothing after the loop -> break; None if returns occur elsewhere"""
+            rets = [x for st in body for x in ast.walk(st) if isinstance(x, ast.Return)]
+            if not rets:
+                return body
+            loops = [st for st in body if isinstance(st, (ast.For, ast.While))]
+            if len(loops) != 1 or body[-1] is not loops[0] or any(r.value is not None for r in rets):
+                return None
+            inner = [x for st in loops[0].body for x in ast.walk(st) if isinstance(x, (ast.For, ast.While))]
+            if inner:
+                return None
+
+            class R(ast.NodeTransformer):
+                def visit_Return(self, x):
+                    return ast.copy_location(ast.Break(), x)
+            loops[0].body = [R().visit(b) for b in loops[0].body]
+            return body
+
+        for cls_name, host in [(None, st) for st in m.tree.body if isinstance(st, ast.FunctionDef)] + \
+                [(c.name, d) for c in m.tree.body if isinstance(c, ast.ClassDef) for d in c.body if isinstance(d, ast.FunctionDef)]:
+            if host in pool.values() or not host.args.args and cls_name is not None:
+                continue
+            me = host.args.args[0].arg if (cls_name is not None and host.args.args) else None
+
+            def rec(lst):
+                nonlocal count
+                i = 0
+                while i < len(lst):
+                    st = lst[i]
+                    if isinstance(st, (ast.FunctionDef, ast.ClassDef)):
+                        i += 1
+                        continue
+                    for fld in ("body", "orelse", "finalbody"):
+                        if hasattr(st, fld) and isinstance(getattr(st, fld), list):
+                            rec(getattr(st, fld))
+                    # for T in G(..): B
+                    if isinstance(st, ast.For) and isinstance(st.iter, ast.Call) and not st.orelse:
+                        r = resolve(st.iter, cls_name)
+                        if r is not None:
+                            g, skip = r
+                            ys = [x for x in ast.walk(g) if isinstance(x, ast.Yield)]
+                            gl = [b for b in g.body if isinstance(b, ast.For)]
+                            if len(ys) == 1 and len(gl) == 1 and gl[0].body and isinstance(gl[0].body[-1], ast.Expr) and gl[0].body[-1].value is ys[0] \
+                                    and not any(isinstance(x, ast.Return) for x in ast.walk(g)):
+                                body = instantiate(g, skip, st.iter, me)
+                                if body is not None:
+                                    tgt, B = st.target, st.body
+                                    def bind(e, tgt=tgt, B=B, st=st):
+                                        if isinstance(tgt, ast.Tuple) and isinstance(e, ast.Tuple) and len(tgt.elts) == len(e.elts) and all(isinstance(t, ast.Name) for t in tgt.elts):
+                                            pairs = [(t, v) for t, v in zip(tgt.elts, e.elts) if not (isinstance(v, ast.Name) and v.id == t.id)]
+                                            tn = {t.id for t, _ in pairs}
+                                            if not any(isinstance(x, ast.Name) and x.id in tn for _, v in pairs for x in ast.walk(v)):
+                                                return [ast.Assign(targets=[ast.Name(id=t.id, ctx=ast.Store())], value=v, lineno=st.lineno) for t, v in pairs] + B
+                                        return [ast.Assign(targets=[copy.deepcopy(tgt)], value=e, lineno=st.lineno)] + B
+                                    nb = replace_yields(body, bind)
+                                    if nb is not None:
+                                        lst[i:i + 1] = nb
+                                        count += 1
+                                        continue
+                    # x = list(G(..))
+                    if isinstance(st, ast.Assign) and len(st.targets) == 1 and isinstance(st.targets[0], ast.Name) and isinstance(st.value, ast.Call) and isinstance(st.value.func, ast.Name) \
+                            and st.value.func.id == "list" and len(st.value.args) == 1 and isinstance(st.value.args[0], ast.Call):
+                        r = resolve(st.value.args[0], cls_name)
+                        if r is not None:
+                            g, skip = r
+                            body = instantiate(g, skip, st.value.args[0], me)
+                            x = st.targets[0].id
+                            if body is not None:
+                                body = bare_returns_to_break(body)
+                            if body is not None:
+                                nb = replace_yields(body, lambda e: [ast.Expr(value=ast.Call(func=ast.Attribute(value=ast.Name(id=x, ctx=ast.Load()), attr="append", ctx=ast.Load()), args=[e], keywords=[]))])
+                                if nb is not None:
+                                    lst[i:i + 1] = [ast.Assign(targets=[ast.Name(id=x, ctx=ast.Store())], value=ast.List(elts=[], ctx=ast.Load()), lineno=st.lineno)] + nb
+                                    count += 1
+                                    continue
+                    i += 1
+            rec(host.body)
+            # g = G(..) consumed only through next(g)
+            for st in [x for x in ast.walk(host) if isinstance(x, ast.Assign)]:
+                if len(st.targets) == 1 and isinstance(st.targets[0], ast.Name) and isinstance(st.value, ast.Call) and resolve(st.value, cls_name) is not None:
+                    gname = st.targets[0].id
+                    loads = [x for x in ast.walk(host) if isinstance(x, ast.Name) and x.id == gname and isinstance(x.ctx, ast.Load)]
+                    nexts = [x for x in ast.walk(host) if isinstance(x, ast.Call) and isinstance(x.func, ast.Name) and x.func.id == "next" and len(x.args) == 1 and isinstance(x.args[0], ast.Name) and x.args[0].id == gname]
+                    stores = [x for x in ast.walk(host) if isinstance(x, ast.Name) and x.id == gname and isinstance(x.ctx, ast.Store)]
+                    if not nexts or len(loads) != len(nexts) or len(stores) != 1:
+                        continue
+                    pos = gname + "_pos"
+                    # every statement holding a next(g) holds exactly one, as a plain (non-loop-header) statement
+                    holders = []
+
+                    def find(lst):
+                        for s_ in lst:
+                            own = [x for x in nexts if any(x is y for y in ast.walk(s_))]
+                            nested = False
+                            for fld in ("body", "orelse", "finalbody"):
+                                if hasattr(s_, fld) and isinstance(getattr(s_, fld), list) and not isinstance(s_, (ast.FunctionDef, ast.ClassDef)):
+                                    nested = True
+                                    find(getattr(s_, fld))
+                            if own and not nested:
+                                holders.append((lst, s_, own))
+                    find(host.body)
+                    if sum(len(o) for _, _, o in holders) != len(nexts) or any(len(o) != 1 for _, _, o in holders):
+                        continue
+                    st.value = ast.Call(func=ast.Name(id="list", ctx=ast.Load()), args=[st.value], keywords=[])
+                    for lst, s_, own in holders:
+                        c = own[0]
+                        c.__class__ = ast.Subscript
+                        c.value = ast.Name(id=gname, ctx=ast.Load())
+                        c.slice = ast.Name(id=pos, ctx=ast.Load())
+                        c.ctx = ast.Load()
+                        c._fields = ("value", "slice", "ctx")
+                        del c.func, c.args, c.keywords
+                        lst.insert(lst.index(s_) + 1, ast.AugAssign(target=ast.Name(id=pos, ctx=ast.Store()), op=ast.Add(), value=ast.Constant(value=1), lineno=s_.lineno))
+                    for lst in [b for x in ast.walk(host) for b in [getattr(x, "body", None), getattr(x, "orelse", None)] if isinstance(b, list)]:
+                        if st in lst:
+                            lst.insert(lst.index(st) + 1, ast.Assign(targets=[ast.Name(id=pos, ctx=ast.Store())], value=ast.Constant(value=0), lineno=st.lineno))
+                            break
+                    count += 1
+                    rec(host.body)
         if count:
             ast.fix_missing_locations(m.tree)
     return count
